@@ -647,6 +647,7 @@ def run(rep, tier):
     rep.rule('R04d', 'sliced sequences are not address-ordered', floor=3)
     rep.rule('R04h', 'no prefix-dependent state inside a rank slice', floor=3)
     rep.rule('R01d', 'R04e: only rank 0 emits', floor=2)
+    rep.rule('R01b', 'MPI siblings: the support vectors are updated against the cycle that rank 0 emits (the reduced global one)', floor=2)
     rep.rule('R04f', 'wire format completeness', floor=3)
     rep.rule('R04m', 'MPI min operator', floor=1)
     rep.rule('R16e', 'forest index order is address-free', floor=1)
@@ -666,6 +667,8 @@ def run(rep, tier):
         check_forest_order(rep, prog)
         F = phase.analyse(prog)
         phase.report(rep, F, ['R01d'])
+        # the support-vector update of the MPI siblings (shared with C01): rank 0 must orthogonalise against the cycle it emits
+        phase.report(rep, [f_ for f_ in F if f_[0] == 'R01b' and '/mpi/' in getattr(f_[2], 'file', '')], ['R01b'])
     pos = os.path.join(env.WITNESS, 'positive', 'c04_mpi.cc')
     try:
         pp = env.extract([pos], 'full', ('first:-I' + os.path.join(env.WITNESS, 'positive', 'broken_include'),))[pos]
